@@ -13,9 +13,10 @@ CLAIMS = {
         text='Exhaustive comparison of every entry of every compiled copy of the precomputed GF(2^4)/GF(2^8) log/exp/inv/mul/packed '
              'tables (read from the IR initialisers) with an independent reference implementation of the two fields; for the tables the '
              'GF(2^8) legacy codec generates at first use: structural rules only (primitive polynomial string selected, only the '
-             'parameterless generators write the tables, every accumulated entry is initialised in the same run so that a second '
+             'parameterless generators write the tables, the index ranges of their stores cover every entry of the exponent, inverse and '
+             'multiplication tables (row 0 / column 0 cleared completely), every accumulated entry is initialised in the same run so that a second '
              'of_rs_init yields the same tables, no reader can run before initialisation).',
-        design_ref='DESIGN.md section 5 (R-TABLES, R-POLY, R-INIT-BEFORE-USE), section 6 C14, 11.2 (R-ACCUM-INIT)',
+        design_ref='DESIGN.md section 5 (R-TABLES, R-POLY, R-INIT-BEFORE-USE), section 6 C14, 11.2 (R-ACCUM-INIT), 11.5 (R-TABLE-COVERAGE)',
         note='Decides the precomputed tables completely (finite data); for the generated tables decides only the structural clauses, not '
              'that the generator loops compute the right entries. ' + BASE + 'Reference field arithmetic: 30 lines in rules_tables.py.',
         technique='constant-data comparison over IR initialisers + who-may-write / init-before-use dominance rules'),
@@ -138,7 +139,7 @@ CLAIMS = {
              'conditions), every entry beyond fill and staircase is counted into the marker, each source column has exactly N1 ones, the '
              'parity columns form the exact staircase, the decoder assumes a zero last symbol only under that answer (zero buffer of the '
              'symbol length, ESI n-1), and encoder and decoder build the same matrix.',
-        design_ref='DESIGN.md section 6 C15; rules R-FLAG-TRUTH, R-EXTRA-MARK, R-COLFILL, R-STAIRCASE, R-NULLFEED, R-PURE-PCHK',
+        design_ref='DESIGN.md section 6 C15; rules R-FLAG-TRUTH, R-EXTRA-MARK, R-COLFILL, R-STAIRCASE, R-NULLFEED, R-PURE-PCHK, R-INIT-ORDER (11.2)',
         note='The lemma (sum of all rows of H) is the only non-mechanical step and is written in DESIGN.md. ' + BASE,
         technique='truth-table enumeration over branch conditions, counting rule, affine loop-range sets, guard/dominance rules'),
     'C13': dict(
